@@ -148,5 +148,187 @@ def replay(path, seed):
         bad = [o for o in out if "mismatch" in o]
         print(json.dumps({"case": show_case(rec), "spec": show_out(rec["out"]), "mismatch": [{"why": b["why"], "engine": show_out(b["actual"])} for b in bad]}, indent=1))
         return 1 if bad else 0
+    if case["family"] in ("eval", "eval-trace"):
+        return eval_replay_one(path, seed)
     print("no replay for family", case["family"])
     return 2
+
+
+# ---- programs with observable handlers (Eval machine / Den) -------------------------------------------
+
+EVAL_INV = "MTypeOK AgreesWithDen NoLockAcrossHandler NoPoison NoDeadlock StopAtFault"
+
+
+def mceval_cfg(name, family="shapes", depth=1, modes=("call", "bare", "mixed"), full_faults=True, emit=True, chain=2, switches=None, inv=None):
+    sw = dict(BareRefHoldsLock=False, BothBranches=False, ContinueAfterErr=False)
+    sw.update(switches or {})
+    path = os.path.join(tlc.WORK, "MCEval-%s.cfg" % name)
+    os.makedirs(tlc.WORK, exist_ok=True)
+    extra = " LeftToRight AtMostOnce" if family == "shapes" else ""
+    with open(path, "w") as f:
+        f.write("SPECIFICATION Spec\nCONSTANTS Depth = %d\n LeafModes = {%s}\n FullFaults = %s\n Emit = %s\n Family = \"%s\"\n ChainLen = %d\n"
+                % (depth, ", ".join('"%s"' % m for m in modes), str(full_faults).upper(), str(emit).upper(), family, chain))
+        for k, v in sw.items():
+            f.write(" %s = %s\n" % (k, str(v).upper()))
+        f.write("INVARIANT %s%s\n" % (inv or (EVAL_INV + extra), " EmitOnce" if emit else ""))
+    return path
+
+
+def show_prog(p):
+    t = p[0]
+    if t == "lit":
+        return show(p[1])
+    if t == "none":
+        return "None"
+    if t == "ref":
+        return p[1]
+    if t == "call":
+        return "%s(%s)" % (p[1], ",".join(show_prog(a) for a in p[2]))
+    if t == "un":
+        return "%s %s" % (p[1], show_prog(p[2]))
+    if t == "post":
+        return "%s %s" % (show_prog(p[1]), p[2])
+    if t == "bin":
+        return "(%s %s %s)" % (show_prog(p[2]), p[1], show_prog(p[3]))
+    if t == "tern":
+        return "(%s ? %s : %s)" % tuple(show_prog(x) for x in p[1:4])
+    if t == "list":
+        return "[" + ",".join(show_prog(a) for a in p[1]) + "]"
+    if t == "map":
+        return "{" + ",".join(show_prog(k) + ":" + show_prog(v) for k, v in p[1]) + "}"
+    if t == "stmt":
+        return "; ".join(show_prog(a) for a in p[1])
+    return str(p)
+
+
+def eval_replay_supervised(run, name, path, total, pid, act=None, timeout=60, max_restarts=4):
+    """Replay in a child process that announces each case before running it; a hang (deadlock in a re-entrant handler) or an
+    abort is attributed to the announced case and the replay resumes after it (at most max_restarts times)."""
+    import subprocess
+    core.build_harness("dev")
+    recs = core.read_ndjson(path)
+    start, restarts = 0, 0
+    ran = mism = dc = 0
+    while start < total:
+        cmd = [core.vh_path(), "eval-replay", path, "--from", str(start), "--to", str(total), "--progress"] + (["--act", act] if act else [])
+        try:
+            p = subprocess.run(cmd, cwd=core.VERIF, stdout=subprocess.PIPE, stderr=subprocess.PIPE, text=True, timeout=timeout)
+            rc, out, timed = p.returncode, p.stdout, False
+        except subprocess.TimeoutExpired as e:
+            rc, timed = -1, True
+            out = e.stdout.decode() if isinstance(e.stdout, bytes) else (e.stdout or "")
+        if rc == 2:
+            raise tlc.ToolError("eval-replay tool error: %s" % p.stderr[-500:])
+        lines = []
+        for l in out.splitlines():
+            if l.startswith("{"):
+                try:
+                    lines.append(json.loads(l))
+                except Exception:
+                    pass
+        for l in lines:
+            if "mismatch" in l:
+                mism += 1
+                rec = recs[l["mismatch"]]
+                kinds = "; ".join(l["why"])
+                key = "lock-held" if "lock held" in kinds else ("poison" if "poison" in kinds or "afterwards" in kinds else ("order" if "log differs" in kinds else "outcome"))
+                run.violation("%s/eval/%s" % (pid, key), "%s  [fault %s%s]: %s" % (show_prog(rec["prog"]), rec["fault"], ", handlers " + act if act else "", kinds),
+                              {"family": "eval", "record": rec, "act": act, "engine": l["engine"], "why": l["why"]})
+        summ = [l for l in lines if "summary" in l]
+        if rc == 0 and summ:
+            ran += summ[0]["summary"]["cases"]
+            dc += summ[0]["summary"]["dontcare"]
+            break
+        ats = [l["at"] for l in lines if "at" in l]
+        culprit = ats[-1] if ats else start
+        rec = recs[culprit]
+        run.violation("%s/eval/%s" % (pid, "deadlock" if timed else "abort"), "%s [handlers %s]: the evaluation %s" % (show_prog(rec["prog"]), act or "plain", "never returned (deadlock)" if timed else "killed the process"),
+                      {"family": "eval", "record": rec, "act": act, "outcome": "timeout" if timed else "abort"})
+        ran += culprit - start + 1
+        start = culprit + 1
+        restarts += 1
+        if restarts > max_restarts:
+            run.leg("R:Eval/%s%s" % (name, "/" + act if act else ""), note="stopped after %d hangs/aborts; %d cases not examined" % (restarts, total - start))
+            break
+    run.traces += ran
+    run.evaluations += ran
+    run.dontcare += dc
+    run.leg("R:Eval/%s%s" % (name, "/" + act if act else ""), cases=ran, mismatches=mism)
+
+
+def eval_model_and_replay(run, name, cfg, pid, acts=(None,), timeout=2400, sample_filter=None):
+    res = tlc.run("mc/MCEval.tla", cfg, workers=16, timeout=timeout)
+    run.tlc("M:Eval/" + name, res)
+    if res.violation:
+        run.model_violation("Eval/" + name, res)
+        return []
+    recs = core.tlc_printed_records(res)
+    if not recs:
+        raise tlc.ToolError("Eval/%s printed nothing" % name)
+    path = os.path.join(tlc.WORK, "eval-replay-%s.ndjson" % name)
+    core.write_ndjson(path, recs)
+    nt = [r for r in recs if len(r["log"]) >= 2 or (sample_filter and sample_filter(r))]
+    run.nontrivial += len(nt)
+    for r in (nt or recs)[:: max(1, len(nt or recs) // 2)][:2]:
+        run.sample({"leg": "M/R", "config": name, "program": show_prog(r["prog"]), "fault": r["fault"], "spec_status": r["st"], "spec_log": [e[0] for e in r["log"]]})
+    for act in acts:
+        eval_replay_supervised(run, name, path, len(recs), pid, act)
+    return recs
+
+
+def eval_trace(run, name, n, seed, pid, depth=4, shards=16):
+    path = os.path.join(tlc.WORK, "eval-trace-%s.ndjson" % name)
+    core.run_vh(["eval-record", "--seed", seed, "--n", n, "--depth", depth, "--out", path], timeout=1800)
+    recs = core.read_ndjson(path)
+    parts, k = core.shard(recs, shards)
+    files = []
+    for i, part in enumerate(parts):
+        p = os.path.join(tlc.WORK, "eval-trace-%s-%d.ndjson" % (name, i))
+        core.write_ndjson(p, part)
+        files.append(p)
+    results = core.parallel([(lambda p=p: tlc.run("trace/TraceEval.tla", "trace/TraceEval.cfg", workers=1, env={"TRACE": p}, xmx="2g", timeout=2400)) for p in files])
+    nm = 0
+    sts = {}
+    for i, res in enumerate(results):
+        run.tlc("T:TraceEval/%s/%d" % (name, i), res)
+        if res.violation:
+            raise tlc.ToolError("TraceEval failed: %s\n%s" % (res.violation, res.error_text[:2000]))
+        prs = core.tlc_printed_records(res)
+        if not any(p.get("done") == len(parts[i]) for p in prs):
+            raise tlc.ToolError("TraceEval did not consume every record (%s/%d)" % (name, i))
+        for p in prs:
+            if "rec" in p:
+                sts[p["st"]] = sts.get(p["st"], 0) + 1
+                if p["calls"] >= 2:
+                    run.nontrivial += 1
+            if "mismatch" in p:
+                nm += 1
+                rec = parts[i][p["mismatch"]]
+                probs = p["problems"]
+                key = "lock-held" if "lock-held-in-handler" in probs else ("poison" if ("poisoned" in probs or "followup" in probs) else ("order" if "log" in probs else "outcome"))
+                run.violation("%s/eval/%s" % (pid, key), "%s [fault %s]: engine %s, spec %s (%s)" % (show_prog(rec["prog"])[:300], rec["fault"], rec["obs"]["st"], p["spec"]["st"], ",".join(probs)),
+                              {"family": "eval-trace", "record": rec, "problems": probs, "spec": p["spec"]})
+    run.traces += len(recs)
+    run.evaluations += len(recs)
+    run.dontcare += sts.get("dc", 0)
+    run.sample({"leg": "T", "program": show_prog(recs[0]["prog"])[:200], "engine_status": recs[0]["obs"]["st"], "engine_log": [e[0] for e in recs[0]["obs"]["log"]]})
+    run.leg("T:TraceEval/" + name, recorded=len(recs), spec_status=sts, mismatches=nm)
+
+
+def eval_replay_one(path, seed):
+    case = json.load(open(path))["case"]
+    rec = dict(case["record"])
+    rec.pop("obs", None)
+    if "st" not in rec:
+        rec.update({"st": case["spec"]["st"], "val": case["spec"]["val"], "log": case["spec"]["log"], "ctx": case["record"].get("obs", {}).get("ctx", {})})
+    p = os.path.join(tlc.WORK, "eval-replay-one.ndjson")
+    core.write_ndjson(p, [rec])
+    import subprocess
+    core.build_harness("dev")
+    try:
+        q = subprocess.run([core.vh_path(), "eval-replay", p] + (["--act", case["act"]] if case.get("act") else []), stdout=subprocess.PIPE, stderr=subprocess.PIPE, text=True, timeout=60)
+    except subprocess.TimeoutExpired:
+        print("TIMEOUT (deadlock)")
+        return 1
+    print(q.stdout[-3000:])
+    return 1 if ('"mismatch"' in q.stdout or q.returncode != 0) else 0
